@@ -339,29 +339,87 @@ def _call_step(step, objs, results, findings, where, type_only, iso=None):
     return o
 
 
+def _kn(p, rr, k=3):
+    """sorted unique interior knee indices for a curve of len(p) points"""
+    n = len(p)
+    k = max(1, min(k, n - 2))
+    return np.array(sorted(rr.sample(range(1, n - 1), k)), dtype=np.int64)
+
+
+def _enum(path):
+    return _pkg_attr(path)
+
+
+# one public function per entry, with a builder (points, rng) -> positional arguments; used by the soak and
+# layout-soak caller ops.  Covers every module and most public functions that take a point array.
 SOAK_TARGETS = {
-    'convex_hull.graham_scan': lambda p: (p,),
-    'convex_hull.graham_scan_lower': lambda p: (p,),
-    'linear_fit.linear_fit_points': lambda p: (p,),
-    'linear_fit.r2_points': lambda p: (p,),
-    'linear_fit.linear_fit_residuals_points': lambda p: (p,),
-    'linear_fit.shortest_distance_points': lambda p: (p, p[0], p[-1]),
-    'menger.knee': lambda p: (p,),
-    'curvature.knee': lambda p: (p,),
-    'dfdt.knee': lambda p: (p,),
-    'kneedle.knee': lambda p: (p,),
-    'lmethod.get_knee': lambda p: (p[:, 0], p[:, 1]),
-    'knee_ranking.rank': lambda p: (p[:, 1],),
-    'knee_ranking.distances': lambda p: (p[0], p),
-    'clustering.single_linkage': lambda p: (p, 0.2),
-    'clustering.average_linkage': lambda p: (p, 0.2),
-    'rdp.rdp_fixed': lambda p: (p, 3),
-    'rdp.grdp': lambda p: (p, 0.05),
-    'evaluation.compute_global_rmse': lambda p: (p, [0, len(p) // 2, len(p) - 1]),
-    'evaluation.compute_global_cost': lambda p: (p, [0, len(p) // 2, len(p) - 1]),
-    'evaluation.mip': lambda p: (p, np.array([0, 1, len(p) // 2, len(p) - 1])),
-    'zmethod.getPoints': lambda p: (p,),
-    'postprocessing.triangle_area': lambda p: (p[:3],),
+    'convex_hull.graham_scan': lambda p, rr: (p,),
+    'convex_hull.graham_scan_lower': lambda p, rr: (p,),
+    'convex_hull.graham_scan_upper': lambda p, rr: (p,),
+    'linear_fit.linear_fit_points': lambda p, rr: (p,),
+    'linear_fit.linear_fit': lambda p, rr: (p[:, 0], p[:, 1]),
+    'linear_fit.r2_points': lambda p, rr: (p,),
+    'linear_fit.r2': lambda p, rr: (p[:, 0], p[:, 1]),
+    'linear_fit.linear_fit_residuals_points': lambda p, rr: (p,),
+    'linear_fit.linear_hv_residuals_points': lambda p, rr: (p,),
+    'linear_fit.linear_fit_transform_points': lambda p, rr: (p, rr.random() < 0.5),
+    'linear_fit.linear_r2_points': lambda p, rr: (p, (1.0, -0.5)),
+    'linear_fit.rmspe_points': lambda p, rr: (p, (1.0, -0.5)),
+    'linear_fit.rmsle_points': lambda p, rr: (p, (1.0, 0.5)),
+    'linear_fit.smape_points': lambda p, rr: (p, (1.0, -0.5)),
+    'linear_fit.rpd_points': lambda p, rr: (p, (1.0, -0.5)),
+    'linear_fit.rmse_points': lambda p, rr: (p, (1.0, -0.5)),
+    'linear_fit.shortest_distance_points': lambda p, rr: (p, p[0], p[-1]),
+    'menger.knee': lambda p, rr: (p,),
+    'menger.multi_knee': lambda p, rr: (p,),
+    'curvature.knee': lambda p, rr: (p,),
+    'curvature.multi_knee': lambda p, rr: (p,),
+    'dfdt.knee': lambda p, rr: (p,),
+    'dfdt.multi_knee': lambda p, rr: (p,),
+    'dfdt.get_knee': lambda p, rr: (p[:, 0], p[:, 1]),
+    'kneedle.knee': lambda p, rr: (p,),
+    'kneedle.knees': lambda p, rr: (p,),
+    'kneedle.multi_knee': lambda p, rr: (p,),
+    'kneedle.differences': lambda p, rr: (p, _enum('kneedle.Direction.Decreasing'), _enum('kneedle.Concavity.Clockwise')),
+    'lmethod.get_knee': lambda p, rr: (p[:, 0], p[:, 1]),
+    'lmethod.knee': lambda p, rr: (p,),
+    'lmethod.multi_knee': lambda p, rr: (p,),
+    'zmethod.getPoints': lambda p, rr: (p,),
+    'zmethod.knees': lambda p, rr: (p,),
+    'zmethod.knees2': lambda p, rr: (p,),
+    'knee_ranking.rank': lambda p, rr: (p[:, 1],),
+    'knee_ranking.distances': lambda p, rr: (p[0], p),
+    'knee_ranking.slope_ranking': lambda p, rr: (p, _kn(p, rr)),
+    'knee_ranking.smooth_ranking': lambda p, rr: (p, _kn(p, rr), _enum('knee_ranking.ClusterRanking.linear')),
+    'clustering.single_linkage': lambda p, rr: (p, 0.2),
+    'clustering.complete_linkage': lambda p, rr: (p, 0.2),
+    'clustering.centroid_linkage': lambda p, rr: (p, 0.2),
+    'clustering.average_linkage': lambda p, rr: (p, 0.2),
+    'rdp.rdp': lambda p, rr: (p, 0.05),
+    'rdp.rdp_fixed': lambda p, rr: (p, 3),
+    'rdp.grdp': lambda p, rr: (p, 0.05),
+    'rdp.mp_grdp': lambda p, rr: (p, 0.05, 4),
+    'rdp.min_point_rdp': lambda p, rr: (p, [0.01, 0.001], 4),
+    'rdp.compute_removed_points': lambda p, rr: (p, np.array([0, len(p) // 2, len(p) - 1])),
+    'evaluation.compute_global_rmse': lambda p, rr: (p, [0, len(p) // 2, len(p) - 1]),
+    'evaluation.compute_global_cost': lambda p, rr: (p, [0, len(p) // 2, len(p) - 1]),
+    'evaluation.mip': lambda p, rr: (p, np.array([0, 1, len(p) // 2, len(p) - 1])),
+    'evaluation.get_neighbourhood_points': lambda p, rr: (p, len(p) - 1, 0, 0.9),
+    'evaluation.get_neighbourhood_fast_points': lambda p, rr: (p, len(p) - 1, 0, 0.9),
+    'evaluation.accuracy_knee': lambda p, rr: (p, _kn(p, rr, 2)),
+    'evaluation.accuracy_trace': lambda p, rr: (p, _kn(p, rr, 2)),
+    'evaluation.mae': lambda p, rr: (p, _kn(p, rr, 2), p[1:3]),
+    'evaluation.rmspe': lambda p, rr: (p, _kn(p, rr, 2), p[1:3]),
+    'evaluation.cm': lambda p, rr: (p, _kn(p, rr, 2), p[1:3]),
+    'postprocessing.triangle_area': lambda p, rr: (p[:3],),
+    'postprocessing.filter_worst_knees': lambda p, rr: (p, _kn(p, rr)),
+    'postprocessing.filter_corner_knees': lambda p, rr: (p, _kn(p, rr)),
+    'postprocessing.select_corner_knees': lambda p, rr: (p, _kn(p, rr)),
+    'postprocessing.rank_corners': lambda p, rr: (p, _kn(p, rr)),
+    'postprocessing.rank_corners_triangle': lambda p, rr: (p, _kn(p, rr)),
+    'postprocessing.filter_clusters': lambda p, rr: (p, _kn(p, rr), _pkg_attr('clustering.single_linkage'), 0.3),
+    'postprocessing.filter_clusters_corners': lambda p, rr: (p, _kn(p, rr), _pkg_attr('clustering.single_linkage'), 0.3),
+    'postprocessing.add_points_even_knees': lambda p, rr: (p, _kn(p, rr)),
 }
 
 
@@ -381,14 +439,15 @@ def _soak(args, findings, where, type_only):
             x += rr.choice([1.0, 1.0, 2.0, 0.5])
             rows.append([x, float(rr.randint(0, 10 ** 6)) / 64.0])
         pts = np.array(rows)
-        e = _enc_outcome(_invoke(target, list(build(pts)), {}, limit, findings, where, type_only))
+        argv = list(build(pts, random.Random(seed + i)))
+        e = _enc_outcome(_invoke(target, argv, {}, limit, findings, where, type_only))
         if i < 16:
-            firsts.append((pts, e))
+            firsts.append((pts, e, i))
         if i % 97 == 0:
             acc.append(sha(e)[:8])
     bad = 0
-    for pts, e in firsts:
-        e2 = _enc_outcome(_invoke(target, list(build(pts)), {}, limit, findings, where, type_only))
+    for pts, e, i0 in firsts:
+        e2 = _enc_outcome(_invoke(target, list(build(pts, random.Random(seed + i0))), {}, limit, findings, where, type_only))
         if e2 != e:
             bad += 1
             if bad == 1:
@@ -406,7 +465,7 @@ def _laysoak(args, findings, where):
     rr = random.Random(seed)
     build = SOAK_TARGETS[target]
     limit = budget.limit_for(m)
-    integral = layout == 'int64'
+    integral = layout.startswith('int64')
     bad = 0
     acc = []
     for i in range(int(count)):
@@ -417,8 +476,8 @@ def _laysoak(args, findings, where):
             rows.append([x, float(rr.randint(0, 10 ** 5)) if integral else float(rr.randint(0, 10 ** 6)) / 64.0])
         c = np.array(rows)
         alt = worlds.deliver(rows, layout, rr.randrange(1 << 30))
-        e1 = _by_value(_enc_outcome(_invoke(target, list(build(c)), {}, limit, findings, where, integral)))
-        e2 = _by_value(_enc_outcome(_invoke(target, list(build(alt)), {}, limit, findings, where, integral)))
+        e1 = _by_value(_enc_outcome(_invoke(target, list(build(c, random.Random(seed + i))), {}, limit, findings, where, integral)))
+        e2 = _by_value(_enc_outcome(_invoke(target, list(build(alt, random.Random(seed + i))), {}, limit, findings, where, integral)))
         if i % 53 == 0:
             acc.append(sha(e1)[:8])
         if e1 != e2:
@@ -754,6 +813,9 @@ def _ambient():
         'np.printoptions': repr(sorted((k, repr(v)) for k, v in np.get_printoptions().items())),
         'recursionlimit': _sys.getrecursionlimit(),
         'cwd': os.getcwd(),
+        'files(cwd)': repr(sorted((n, os.path.getsize(os.path.join('.', n)) if os.path.isfile(n) else -1) for n in os.listdir('.')))
+        if os.environ.get('KNEESIM_RUNDIR') else '',
+        'files(tmp)': repr(sorted(os.listdir(os.environ['TMPDIR']))) if os.environ.get('KNEESIM_RUNDIR') and os.environ.get('TMPDIR') else '',
         'environ': hash(tuple(sorted(os.environ.items()))),
         'warnings.filters': len(warnings.filters),
         'random.state': hash(_random.getstate()),
@@ -772,6 +834,23 @@ def _has_array(v, depth=0):
 def _short(e, lim=160):
     s = repr(e)
     return s if len(s) <= lim else s[:lim] + '...'
+
+
+def witness_plans():
+    """Fixed plans exhibiting findings recorded in known_findings.json by their specific input.  Keys of findings
+    of a witness plan carry '@witness:<name>', so the entry suppresses nothing found elsewhere."""
+    GiB = 2.0 ** 30
+    xs = [1, 2, 4, 8, 16, 32, 64, 128, 256, 512]
+    ys = [900, 700, 520, 400, 300, 230, 180, 150, 130, 120]
+    pts = [[fhex(a * GiB), fhex(b * 1e6)] for a, b in zip(xs, ys)]
+    pool = [{'kind': 'curve', 'family': 'witness', 'points': pts, 'layout': 'int64', 'salt': 1, 'sibling': None, 'readonly': False}]
+    P0 = {'pool': 0}
+    steps = [{'fn': 'knee_ranking.distances', 'args': [{'row': [P0, 0]}, P0], 'kw': {}},
+             {'fn': 'convex_hull.graham_scan', 'args': [P0], 'kw': {}},
+             {'fn': 'curvature.knee', 'args': [P0], 'kw': {}}]
+    return [{'property': 'C20', 'tier': 'quick', 'witness': 'int64-overflow-GiB', 'pool': pool,
+             'clients': [{'kind': 'witness', 'steps': [st]}], 'schedule': [{'c': 0, 'k': 0}], 'iso': {}, 'poison': False, 'poison_seed': 0}
+            for st in steps]
 
 
 def execute(plan, stats=None, want_events=True):
@@ -818,6 +897,8 @@ def execute(plan, stats=None, want_events=True):
     nontrivial = (len(plan['clients']) >= 2 and shared and (nonC or info['poison_hits'] > 0) and info['dups'] > 0)
     for f in findings:
         f['step'] = f['where']
+        if plan.get('witness'):
+            f['key'] = '%s@witness:%s' % (f['key'], plan['witness'])
     return {'events': events if want_events else None, 'digest': sha([events, sorted(f['key'] for f in findings)]),
             'violations': findings, 'violation': findings[0] if findings else None,
             'nontrivial': bool(nontrivial), 'stats': st, 'cache_states': [sha([e[4] for e in events])] if events else []}
@@ -858,7 +939,7 @@ def _pool_refs(x):
 # ----------------------------------------------------------------------------- minimisation
 
 def _keys(plan):
-    r = isolate.call(execute, (plan, None, False), timeout=400)
+    r = isolate.with_rundir(execute, (plan, None, False), timeout=400)
     return [f['key'] for f in r['violations']]
 
 
@@ -992,6 +1073,28 @@ class Adapter(object):
                 Adapter.focus = focus.compute()
             except Exception as e:
                 Adapter.focus = {'changed': [], 'focus': [], 'error': str(e)[:200]}
+        # public functions the catalogue has no entry for (added by the change under test): called by parameter name
+        try:
+            import inspect
+            from . import focus as _focus
+            base = _focus.load_baseline() or {}
+            known_calls = set(base.get('reach', {})) | set(SOAK_TARGETS)
+            extra = []
+            for q in worlds.public_functions():
+                if q in known_calls or q in ('rdp.plot_frame', 'evaluation.compute_global_segment_cost') or not base:
+                    continue
+                f = _pkg_attr(q)
+                f = getattr(f, 'py_func', f)
+                try:
+                    params = [(n_, p_.default is not inspect.Parameter.empty) for n_, p_ in inspect.signature(f).parameters.items()
+                              if p_.kind in (p_.POSITIONAL_ONLY, p_.POSITIONAL_OR_KEYWORD)]
+                except (TypeError, ValueError):
+                    continue
+                extra.append((q, params))
+            catalog.EXTRA_CALLS[:] = extra
+            Adapter.extra_calls = [q for q, _ in extra]
+        except Exception as e:
+            Adapter.extra_calls = ['error: %s' % str(e)[:100]]
         a = np.array([[0.0, 1.0], [1.0, 3.0], [2.0, 2.5], [3.0, 2.0]])
         ai = a.astype(np.int64)
         arr = {'fA': a[:, 1], 'fC': a[:, 1].copy(), 'iA': ai[:, 1], 'iC': ai[:, 1].copy()}
@@ -1056,10 +1159,13 @@ class Adapter(object):
         return execute(plan, None, want_events=True)
 
     def execute_isolated(self, plan):
-        return isolate.call(execute, (plan, None, True), timeout=600)
+        return isolate.with_rundir(execute, (plan, None, True), timeout=600)
 
     def shrink(self, plan, violation, deadline):
         return shrink(plan, violation, deadline)
+
+    def witness_plans(self):
+        return witness_plans()
 
     def sample_view(self, plan):
         p = copy.deepcopy(plan)
@@ -1086,6 +1192,7 @@ class Adapter(object):
                 _, kind, fn = k.split('.', 2)
                 ok.setdefault(fn, {})[kind] = v
         return {'change_directed_focus': Adapter.focus,
+                'public_functions_called_by_parameter_name': getattr(Adapter, 'extra_calls', []),
                 'functions_reached': {'count': len(reached), 'names': reached},
                 'client_call_outcomes': {fn: ok[fn] for fn in sorted(ok)},
                 'poisoned_allocations': {k[7:]: v for k, v in sorted(st.items()) if k.startswith('poison.')},
